@@ -101,7 +101,8 @@ Emit ==
   /\ UNCHANGED <<ctx, meta, st>>
   /\ PrintT(<<"INJ", ToJson([ctx |-> [c \in DOMAIN ctx \ {"educed", "inject"} |-> ctx[c]],
                              educed |-> [t \in AllTraits |-> t \in ctx.educed],
-                             meta |-> meta, verdict |-> st.verdict])>>)
+                             meta |-> meta, verdict |-> st.verdict,
+                             errclass |-> IF st.verdict = "err" THEN ErrClass(ctx, meta) ELSE "-"])>>)
 
 Next == Choose \/ Step \/ Emit
 Spec == Init /\ [][Next]_vars
